@@ -266,7 +266,7 @@ def check_clause(chk, sc, out, cfg, tn):
 def run(chk):
     thorough = chk.tier == "thorough"
     dump = chk.scratch.file("lre.dump")
-    r = tlc.must_pass(tlc.run("LinearREMC", "LinearREMC.cfg", chk.scratch, dump=dump, timeout=1800), "LinearREMC")
+    r = tlc.must_pass(tlc.run("LinearREMC", "LinearREMC.thorough.cfg" if chk.tier == "thorough" else "LinearREMC.cfg", chk.scratch, dump=dump, timeout=3600), "LinearREMC")
     chk.add_tlc(r, "LinearREMC")
     n = done = 0
     per_cfg = {}
